@@ -67,6 +67,40 @@ def gen_gas():
         ("pseudocritical_point_Sutton_wet", {"fluid": "wet gas"})]
     m.inline_funcs["make_nonhydrocarbon_properties"] = (m, mk)
     _fn(m, "pseudopressure_Hussainy")
+    # ---- z_factor_hallyarbrough: a Newton `while` loop.  Its pieces are translated, the loop itself is not:
+    #   hy_newton_step pressure t y = (fdum, y')    one pass through the loop body
+    #   hy_zfact pressure t y                       the expression returned after the loop
+    # fail closed unless the function still has the shape  t = 1/T; y = 0.001; fdum = 1; while abs(fdum) > 0.001: ...; zfact = ..; return zfact
+    import ast
+    import copy
+    hy = m.funcs["z_factor_hallyarbrough"]
+    body = [n for n in hy.body if not (isinstance(n, ast.Expr) and isinstance(getattr(n, "value", None), ast.Constant))]
+    shape = [type(n).__name__ for n in body]
+    if shape != ["Assign", "Assign", "Assign", "While", "Assign", "Return"]:
+        raise P.Untranslatable(f"z_factor_hallyarbrough: unexpected statement shape {shape}")
+    init = [ast.unparse(n).replace(" ", "") for n in body[:3]]
+    if init != ["t=1/temperature", "y=0.001", "fdum=1"]:
+        raise P.Untranslatable(f"z_factor_hallyarbrough: unexpected initialisation {init}")
+    loop = body[3]
+    if ast.unparse(loop.test).replace(" ", "") != "np.abs(fdum)>0.001" or loop.orelse:
+        raise P.Untranslatable(f"z_factor_hallyarbrough: unexpected loop condition {ast.unparse(loop.test)}")
+    if ast.unparse(body[5].value) != "zfact" or ast.unparse(body[4].targets[0]) != "zfact":
+        raise P.Untranslatable("z_factor_hallyarbrough: unexpected return")
+
+    def fdef(name, args, stmts):
+        fn = ast.FunctionDef(name=name, args=ast.arguments(posonlyargs=[], args=[ast.arg(arg=a) for a in args], kwonlyargs=[], kw_defaults=[], defaults=[]),
+                             body=stmts, decorator_list=[], lineno=hy.lineno, col_offset=0)
+        ast.fix_missing_locations(fn)
+        return fn
+    ret = ast.Return(value=ast.Tuple(elts=[ast.Name(id="fdum", ctx=ast.Load()), ast.Name(id="y", ctx=ast.Load())], ctx=ast.Load()))
+    P.Tr(m, fdef("hy_newton_step", ["pressure", "t", "y"], copy.deepcopy(loop.body) + [ret]), emit_name="hy_newton_step").translate()
+    # the two components separately (no pairs: used by the certified point evaluations)
+    first = copy.deepcopy(loop.body[0])
+    if ast.unparse(first.targets[0]) != "fdum":
+        raise P.Untranslatable("z_factor_hallyarbrough: the loop body does not start with the residual fdum")
+    P.Tr(m, fdef("hy_residual", ["pressure", "t", "y"], [first, ast.Return(value=ast.Name(id="fdum", ctx=ast.Load()))]), emit_name="hy_residual").translate()
+    P.Tr(m, fdef("hy_update", ["pressure", "t", "y"], copy.deepcopy(loop.body) + [ast.Return(value=ast.Name(id="y", ctx=ast.Load()))]), emit_name="hy_update").translate()
+    P.Tr(m, fdef("hy_zfact", ["pressure", "t", "y"], [ast.Return(value=copy.deepcopy(body[4].value))]), emit_name="hy_zfact").translate()
     return m
 
 
